@@ -258,6 +258,16 @@ fn check_many(c: &ManyCase, ctx: &Ctx) -> Outcome {
             (format!("m{}_{i}", (i * 3) % 10), vec![s])
         })
         .collect();
+    // some lists name two different samples alike (adjacent, or far apart)
+    let mut samples = samples;
+    match c.salt % 5 {
+        0 => samples[1].0 = samples[0].0.clone(),
+        1 => {
+            let last = samples.len() - 1;
+            samples[last].0 = samples[2].0.clone();
+        }
+        _ => {}
+    }
     let perm = perm_from_keys(&c.perm, c.n);
     let permuted: Vec<Sample> = perm.iter().map(|i| samples[*i].clone()).collect();
     let dir = ctx.case_dir();
